@@ -4,7 +4,7 @@ use happylock::collection::LockGuard;
 use happylock::ThreadKey;
 fn main() {
     let key = ThreadKey::get().unwrap();
-    let g = LockGuard { guard: (), key }; //~ ERROR E0451
+    let g = LockGuard { @{field:LockGuard#0}: (), @{field:LockGuard~ThreadKey}: key }; //~ ERROR E0451
     //~ TWIN: let g = key;
     drop(g);
 }
